@@ -3,9 +3,12 @@ package main
 import (
 	"bytes"
 	"fmt"
+	"io/ioutil"
 	"math/rand"
 	"os"
+	"os/exec"
 	"path/filepath"
+	"strings"
 	"sync"
 	"sync/atomic"
 
@@ -206,4 +209,33 @@ func c18ColonAlias(c *Ctx) {
 	}
 	c.Count(id, true, "stream:colon-alias")
 	os.RemoveAll(filepath.Dir(dir))
+}
+
+// c18RelativePath: a store opened with a relative directory keeps meaning the same directory when the process later
+// changes its working directory (run in a child: the working directory is per process).
+func c18RelativePath(c *Ctx) {
+	probe := c19Probe(c)
+	for i := 0; i < c.Pick(3, 20); i++ {
+		id := c.CaseID("relative-path", i)
+		if c.Skip(id) {
+			continue
+		}
+		r := c.CaseRng("relative-path", i)
+		base := filepath.Join(c.ScratchDir(), fmt.Sprint("rel", i))
+		os.MkdirAll(base, 0755)
+		rel := []string{"db", "./data/db", "a/../store"}[i%3]
+		key := fmt.Sprintf("key%d", r.Intn(100))
+		val := randBytes(r, 1+r.Intn(64))
+		out, err := exec.Command(probe, "relstore", base, rel, hx([]byte(key)), hx(val)).Output()
+		got := strings.TrimSpace(string(out))
+		want := fmt.Sprintf("got %s 1", hx(val))
+		in := map[string]interface{}{"working_directory_when_opened": base, "directory": rel, "key": key, "value_hex": hx(val), "then": "chdir(\"/\"), Get, KeysWithSuffix(\"\")"}
+		if err != nil || got != want {
+			c.Violate("a store opened with a relative directory loses its entries when the process changes its working directory", id, in, want, fmt.Sprint(got, " ", err))
+		}
+		if b, err := ioutil.ReadFile(filepath.Join(base, rel, key)); err != nil || !bytes.Equal(b, val) {
+			c.Violate("a store opened with a relative directory does not keep the value in that directory", id, in, "file "+filepath.Join(base, rel, key), fmt.Sprint(err))
+		}
+		c.Count(id, true, "stream:relative-path")
+	}
 }
